@@ -7,7 +7,7 @@ import itertools
 import json
 import re
 
-from ..astq import body_walk, dotted, in_logging, src, walk_local, fn_calls
+from ..astq import body_walk, dotted, in_logging, src, walk_local, fn_calls, tail
 from ..cfg import CFG
 from ..dataflow import ReachingDefs, walk_table
 from ..hashmodel import full_model
@@ -393,10 +393,36 @@ def r5_full_identifier(chk: Check):
                 okmsg=f"{n} hasher inputs: raw identifier, sorted pre-task identifiers, INIT_TASKS marker, init-task identifiers")
 
 
+def r6_reload_default_filled(chk: Check):
+    """Adding a defaulted parameter to a class must not change the identifier of a configuration reloaded from disk:
+    the loader runs the ordinary constructor (which fills declared defaults) before restoring the stored fields"""
+    tree = chk.tree
+    lo = tree.func("core.objects", "ConfigInformation.load_objects")
+    g = CFG(lo.node)
+    rd = ReachingDefs(g)
+    inits = [(n, c) for n, c in g.call_nodes(lambda c: tail(c) == "__init__" and not c.args and not c.keywords)]
+    inits = [(n, c) for n, c in inits if rd.canon(c.func.value, n) == "objects[definition['id']]"]
+    floops = [n for n in g.live if n.kind == "for" and "fields" in src(n.ast.iter)]
+    ok = bool(inits) and len(floops) == 1
+    if ok:
+        # on every path that reaches the field loop in configuration mode the constructor ran
+        cfg_inits = [n for n, c in inits if any(src(t.ast) == "as_instance" and pol is False for t, pol in g.guards(n) if t.kind == "test")] or [n for n, c in inits]
+        inst_inits = [n for n, c in inits]
+        ok = g.must_pass(g.entry, floops[0], inst_inits)
+    chk.require(ok, chk.fkey(lo, "constructor before fields"),
+                "load_objects restores the stored fields without first running the configuration's constructor: parameters added to the class since the file was written "
+                "(with a default) stay unset instead of holding their default, so their name enters the hash and the reloaded identifier changes", chk.loc(lo.module, lo.node))
+    ti = tree.func("core.objects", "TypeConfig.__init__")
+    gi = CFG(ti.node)
+    sets = [n for n, c in gi.call_nodes(lambda c: tail(c) == "set" and any("default" in src(a) for a in c.args))]
+    chk.require(bool(sets), chk.fkey(ti, "defaults filled"), "TypeConfig.__init__ must store the declared default of every parameter that is not given", chk.loc(ti.module, ti.node))
+
+
 RULES = [
     ("R1", "frame condition: no function computing identifiers reads tags, dependencies, job, launcher, workspace, run mode or documentation", r1_frame),
     ("R2", "argument-loop decision table equals the documented rule for all consistent assignments of its atoms; the decision depends on no other condition", r2_table),
     ("R3", "list and dict branches hash only members that are not meta-flagged; length prefix = length of the filtered sequence; is_ignored / remove_meta agree", r3_containers),
     ("R4", "declaration tables: Path ignored by type, Option/Meta/DataPath ignored, Param not, generators registered", r4_declarations),
+    ("R6", "configurations reloaded from disk are default-filled by the ordinary constructor before the stored fields are restored (a defaulted parameter added later leaves old identifiers unchanged)", r6_reload_default_filled),
     ("R5", "the full identifier adds only pre-task and init-task raw identifiers", r5_full_identifier),
 ]
